@@ -429,3 +429,85 @@ def r17_5(ctx):
             rets.append(ex.call_expr(t, b.term_loc(bb)))
     okr = len(rets) == 1 and any(x[0] == "call" and x[1].endswith("<impl str>::trim") for x in subexprs(rets[0]))
     ctx.ob("clean_input:trimmed", okr, b.file, "the result is the trimmed buffer")
+
+
+# entry points the reply path (find_and_play_best_move and the helpers it runs on the command
+# thread) may call without a panic being possible, one reason each
+REPLY_NOPANIC = {
+    "std::sync::mpsc::channel": "constructor",
+    "std::thread::spawn": "panics only if the OS cannot create a thread (treated as an environment failure)",
+    "std::sync::mpsc::Receiver::<T>::try_recv": "returns Result",
+    "std::time::Duration::from_millis": "constructor",
+    "std::thread::sleep": "no panic",
+    "std::time::Instant::now": "no panic",
+    "std::time::Instant::duration_since": "saturating since Rust 1.60",
+    "std::time::Instant::elapsed": "saturating",
+    "std::time::Duration::as_millis": "field arithmetic in u128",
+    "std::option::Option::<T>::is_none": "discriminant test",
+    "std::option::Option::<T>::is_some": "discriminant test",
+    "std::option::Option::<T>::unwrap_or": "total",
+    "std::f64::<impl f64>::round": "total",
+    "std::cmp::Ord::min": "total", "std::cmp::Ord::max": "total", "std::cmp::min": "total", "std::cmp::max": "total",
+    "std::time::Duration::saturating_sub": "saturating", "std::time::Duration::checked_sub": "returns Option",
+    "<board::BoardState as std::clone::Clone>::clone": "allocation only",
+    "<draw_table::DrawTable as std::clone::Clone>::clone": "allocation only",
+}
+REPLY_PANICKY_HINT = ("as std::ops::Sub", "as std::ops::Add", "as std::ops::Mul", "as std::ops::Div", "::unwrap", "::expect", "Index", "::remove", "::split_at",
+                      "::copy_from_slice", "::checked_", "core::panicking", "std::rt::begin_panic")
+
+
+def r8_4(ctx):
+    """The reply path cannot panic for reasons of its own: every call made by
+    find_and_play_best_move and by the clock helpers it uses is either known not to panic or is an
+    `unwrap` discharged by the loop's exit condition."""
+    from wa.cond import bool_facts
+    f = ctx.facts
+    fns = [FIND, "utils::out_of_time", "time_control::GameTime::calculate_time_slice"]
+    # plus any crate-local helper FIND calls directly that is not the search, the parser or the printers
+    b0 = f.body(FIND)
+    skip = {"uci::parse_go_command", "uci::send_best_move_to_gui", "uci::send_to_gui", "engine::get_best_move", "board::BoardState::simple_board"}
+    for bb, t in b0.iter_calls():
+        c = callee_of(t)
+        if c and f.has_body(c) and c not in skip and c not in fns and not c.startswith("<"):
+            fns.append(c)
+    # and helpers of helpers (one level)
+    for fn in list(fns):
+        for bb, t in f.body(fn).iter_calls():
+            c = callee_of(t)
+            if c and f.has_body(c) and c not in skip and c not in fns and not c.startswith("<"):
+                fns.append(c)
+    ctx.note_fn(*fns)
+    n = 0
+    for fn in fns:
+        b = f.body(fn)
+        ex = Exprs(b)
+        short = fn.split("::")[-1]
+        for bb, t in b.iter_calls():
+            c = callee_of(t) or ""
+            if f.has_body(c) or c in REPLY_NOPANIC:
+                continue
+            if t["span"].get("exp") and (c.startswith("log::") or c.startswith("std::fmt::") or c.startswith("core::fmt::") or "PartialOrd" in c or c.startswith("std::hint::") or "as std::ops::Deref" in c):
+                continue    # logging macro expansion
+            n += 1
+            loc = b.term_loc(bb)
+            if c.endswith("Option::<T>::unwrap"):
+                a = strip_refs(ex.call_args(bb)[0])
+                bf = bool_facts(b, ex, bb)
+                ok = any(d[0] == "call" and d[1].endswith("::is_none") and v is False and root_local(d[2][0]) == root_local(a) for d, v in bf.items()) or \
+                    any(d[0] == "call" and d[1].endswith("::is_some") and v is True and root_local(d[2][0]) == root_local(a) for d, v in bf.items())
+                ctx.ob("%s:unwrap(%s)" % (short, b.lname(root_local(a)) if root_local(a) is not None else "?"), ok, b.where(loc),
+                       "`%s.unwrap()` is reached only when the value is known to be Some (loop exit condition)" % show_expr(a, b)[:40])
+                continue
+            panicky = any(h in c for h in REPLY_PANICKY_HINT)
+            ctx.ob("%s:call:%s" % (short, c.split("::")[-1] if not c.startswith("<") else c[:60]), False, b.where(loc),
+                   "`%s` on the command thread's reply path%s: a panic here kills the UCI loop, no bestmove and no readyok afterwards" % (
+                       c, " can panic (overflow/underflow/None)" if panicky else " is not in the table of calls known not to panic"),
+                   reason="rule-breach" if panicky else "shape-not-recognised")
+        # compiler-inserted asserts in these functions
+        for bb in b.normal:
+            if bb in b.reachable and b.term(bb)["k"] == "assert":
+                n += 1
+                from wa.absint import Intervals
+                ok, d = Intervals(b).assert_holds(bb)
+                ctx.ob("%s:assert:%s" % (short, b.term(bb)["assert_kind"]), ok, b.where(b.term_loc(bb)), d)
+    ctx.ob("reply-path-calls-classified", True, "", "%d call/assert sites outside the tables examined in %s" % (n, [x.split("::")[-1] for x in fns]), nontrivial=False)
